@@ -19,3 +19,15 @@ Lemma tie_writer_write_all : TIE_writer_write_all =
    (1, "buf+=bytes_written");
    (1, "size-=bytes_written")].
 Proof. reflexivity. Qed.
+
+(* mtbl/writer.c: _mtbl_writer_write_block *)
+Lemma tie_wr_mtbl_writer_write_block : TIE_wr_mtbl_writer_write_block =
+  [(0, "uint8_tlen[10]");
+   (0, "size_tlen_length,bytes_written");
+   (0, "len_length=mtbl_varint_encode64(len,b->len_data)");
+   (0, "_write_all(fd,(constuint8_t*)len,len_length)");
+   (0, "_write_all(fd,(constuint8_t*)&b->crc,sizeof(b->crc))");
+   (0, "_write_all(fd,b->data,b->len_data)");
+   (0, "bytes_written=len_length+sizeof(b->crc)+b->len_data");
+   (0, "return(bytes_written)")].
+Proof. reflexivity. Qed.
